@@ -19,7 +19,7 @@ sys.path.insert(0, ROOT)
 
 from pyvc import extract  # noqa: E402
 from pyvc.solve import Verdict, discharge, solve_one, to_smt2  # noqa: E402
-from pyvc.verify import verify_function  # noqa: E402
+from pyvc.verify import verify_function, verify_many  # noqa: E402
 
 import re
 
@@ -91,6 +91,7 @@ class PropertyRun:
         self.undecided: list[str] = []
         self.checker_errors: list[str] = []
         self.known_lines: list[str] = []
+        self.lemma_checks: list[dict] = []
         self.functions: list[dict] = []
         self.bounded: list[dict] = []
         self.samples: list = []
@@ -112,8 +113,9 @@ class PropertyRun:
         funcs = [q for q, c in self.reg.contracts.items() if self.pid in c.props and not c.trusted]
         timeout_ms = 10000 if self.tier == "quick" else 60000
         bfuts = [(b, start_concrete("bounded", b["module"], b["func"], {"tier": self.tier, "seed": self.seed})) for b in pinfo.get("bounded", [])]
+        frs = verify_many(self.reg, funcs)  # one pristine child process per function (deterministic obligations, parallel symex)
         for q in funcs:
-            self.verify_one(q, floor, known, timeout_ms)
+            self.verify_one(q, floor, known, timeout_ms, frs[q])
         for q, c in self.reg.contracts.items():
             used = any(q in (f.get("callees") or []) for f in self.functions)
             if c.trusted and (self.pid in c.props or used):
@@ -129,6 +131,9 @@ class PropertyRun:
                 self.trusted.add(f"{f['function']}: {f['scope_note']}")
         for b, proc in bfuts:
             self.run_bounded(b, finish_concrete(proc, b.get("timeout", 1800)))
+        # facts of finite arithmetic that contracts state as preconditions (SMT solvers do not derive them) are proved in Lean 4 + Mathlib
+        for rel in pinfo.get("lean", []):
+            self.run_lean(rel)
         self.replay_known(known)
         if not funcs and not pinfo.get("bounded"):
             self.checker_errors.append("no function under contract for this property")
@@ -151,9 +156,10 @@ class PropertyRun:
         return 0
 
     # ------------------------------------------------------------------
-    def verify_one(self, q: str, floor: dict, known: dict, timeout_ms: int):
+    def verify_one(self, q: str, floor: dict, known: dict, timeout_ms: int, fr=None):
         ct = self.reg.contracts[q]
-        fr = verify_function(self.reg, q)
+        if fr is None:
+            fr = verify_many(self.reg, [q])[q]
         base = floor.get(q, {})
         entry = {
             "function": q, "file": ct.path, "line": fr.lineno, "sha256": fr.sha256, "paths": fr.paths,
@@ -240,7 +246,7 @@ class PropertyRun:
         entry["obligation_names_ok"] = len(names_ok)
         if len(self.samples) < 4 and fr.obligations:
             for ob in fr.obligations:
-                if not ob.cover and ob.assumptions:
+                if not ob.cover and getattr(ob, "has_assumptions", False) and ob.smt2:
                     txt = to_smt2(ob)
                     self.samples.append({"obligation": ob.name, "function": q, "smt2_sha256": hashlib.sha256(txt.encode()).hexdigest(), "smt2_head": txt[:600]})
                     break
@@ -311,6 +317,27 @@ class PropertyRun:
         for k in res.get("known_hits", []):
             self.known_lines.append(k)
 
+    def run_lean(self, rel: str):
+        import shutil as _sh
+        import subprocess as _sp
+
+        path = os.path.join(ROOT, rel)
+        exe = _sh.which("lean")
+        if exe is None or not os.path.exists(path):
+            self.trusted.add(f"stated arithmetic facts of {rel} NOT re-checked in this run (lean not found)")
+            return
+        t0 = time.time()
+        try:
+            p = _sp.run([exe, path], capture_output=True, text=True, timeout=1800, cwd=os.path.dirname(path))
+        except _sp.TimeoutExpired:
+            self.checker_errors.append(f"lean timed out on {rel}")
+            return
+        bad = p.returncode != 0 or "error" in (p.stdout + p.stderr).lower() or "sorry" in (p.stdout + p.stderr).lower()
+        self.lemma_checks.append({"file": rel, "checker": "lean 4 + Mathlib", "ok": not bad, "seconds": round(time.time() - t0, 1),
+                                  "sha256": hashlib.sha256(open(path, "rb").read()).hexdigest()})
+        if bad:
+            self.checker_errors.append(f"lean rejected {rel}: {(p.stdout + p.stderr)[-300:]}")
+
     def replay_known(self, known: dict):
         for k in known.get("open", []):
             if k["property"] != self.pid:
@@ -340,6 +367,7 @@ class PropertyRun:
             "functions": [{k: v for k, v in f.items() if k != "names"} for f in self.functions],
             "bounded": self.bounded,
             "known_findings": self.known_lines,
+            "lemmas_checked_in_lean": self.lemma_checks,
             "undecided": self.undecided,
             "checker_errors": self.checker_errors,
             "samples": self.samples or [{"note": "no symbolic obligations"}],
@@ -367,10 +395,10 @@ class PropertyRun:
 def cmd_floor(reg, pids):
     """Regenerate obligation_floor.json for the functions of the given properties (maintainer action)."""
     floor = load_json(FLOOR_FILE, {})
-    for q, ct in reg.contracts.items():
-        if ct.trusted or not (set(ct.props) & set(pids)):
-            continue
-        fr = verify_function(reg, q)
+    todo = [q for q, ct in reg.contracts.items() if not ct.trusted and (set(ct.props) & set(pids))]
+    frs = verify_many(reg, todo)
+    for q in todo:
+        fr = frs[q]
         if fr.error:
             print("skip", q, fr.error.splitlines()[0])
             continue
